@@ -73,7 +73,7 @@ func verif_contract_dns_naming_processSSDPSearchRequest(raw []byte) (packet.Name
 //verif:props C08
 func verif_contract_dns_naming_parseTXT(txt []string) string {
 	vCanary()
-	vModifiesHeap()
+	vModifiesMems("elem:string/") // (the slices strings.Split returns)
 	return parseTXT(txt)
 }
 
@@ -112,71 +112,259 @@ func verif_contract_dns_naming_DNSHandler_ProcessSSDP(h *DNSHandler, host *packe
 	return n, loc, err
 }
 
-// ---------- dnsmessage.Parser typestate (TRUSTED contracts on golang.org/x/net) ----------
+// ---------- dnsmessage.Parser typestate (TRUSTED contracts on golang.org/x/net v0.34.0) ----------
 
-// verifAnswersLeft (ghost): how many answer records the parser in use has not consumed yet
-// (dnsmessage.Parser keeps it as header.answers - index while in the answer section). It is only
-// ever read and written by the trusted contracts below and by termination measures.
-var verifAnswersLeft int
+// Ghost state of the parser in use (one per call of a Process function), read and written only by
+// the trusted contracts below, by loop invariants and by termination measures:
+//
+//	verifParserSec   the section the parser is in: 0 questions, 1 answers, 2 authorities,
+//	                 3 additionals, 4 done (Parser.section);
+//	verifParserLeft  how many resource records of all sections it has not consumed yet.
+//
+// The contracts transcribe Parser.checkAdvance / resourceHeader / skipResource / <T>Resource.
+var verifParserSec, verifParserLeft, verifParserHdr int
 
-func verifGhostAnswersLeft(n int) { verifAnswersLeft = n } // (marks the ghost as mutable state for govc)
+func verifGhostParser(s, n, v int) { verifParserSec, verifParserLeft, verifParserHdr = s, n, v } // (marks the ghosts as mutable state for govc)
 
-// Start: total; the header announces at most 65535 answers.
+func spec_parser_ok() bool {
+	return 0 <= verifParserSec && verifParserSec <= 4 && 0 <= verifParserLeft && verifParserLeft <= 3*65535 && 0 <= verifParserHdr && verifParserHdr <= 1
+}
+
+// Start: total; the header announces at most 3 * 65535 records.
 func verif_extern_dnsmessage_Parser_Start(p *dnsmessage.Parser, msg []byte) (dnsmessage.Header, error) {
 	vModifiesObj(p)
-	vModifiesMems("global:github.com/irai/packet/handlers/dns_naming.verifAnswersLeft")
+	vModifiesMems("dns_naming.verifParser")
 	h, err := p.Start(msg)
-	vEnsures(0 <= verifAnswersLeft && verifAnswersLeft <= 65535)
+	vEnsures(spec_parser_ok() && verifParserSec == 0 && verifParserHdr == 0)
+	vEnsures(dnsmessage.ErrSectionDone != nil)
 	return h, err
 }
 
-// SkipAllQuestions: total; consumes no answer.
+// SkipAllQuestions / AllQuestions: total; a nil error leaves the parser at the answer section.
 func verif_extern_dnsmessage_Parser_SkipAllQuestions(p *dnsmessage.Parser) error {
+	sec := verifParserSec
 	vModifiesObj(p)
+	vModifiesMems("dns_naming.verifParserSec")
 	err := p.SkipAllQuestions()
+	vEnsures((err == nil && sec <= 1 && verifParserSec == 1) || (err != nil && verifParserSec == sec))
 	return err
 }
-
-// AnswerHeader: total; does NOT consume the record (calling it again returns the same header);
-// succeeds only while an answer is left, reports ErrSectionDone or a parse error otherwise.
-func verif_extern_dnsmessage_Parser_AnswerHeader(p *dnsmessage.Parser) (dnsmessage.ResourceHeader, error) {
+func verif_extern_dnsmessage_Parser_AllQuestions(p *dnsmessage.Parser) ([]dnsmessage.Question, error) {
+	sec := verifParserSec
 	vModifiesObj(p)
+	vModifiesMems("dns_naming.verifParserSec")
+	q, err := p.AllQuestions()
+	vEnsures((err == nil && sec <= 1 && verifParserSec == 1) || (err != nil && verifParserSec == sec))
+	return q, err
+}
+
+// <Section>Header (x = 1, 2, 3): total; does NOT consume the record (calling it again returns the
+// same header). It succeeds only in its own section and while a record is left; ErrSectionDone
+// moves the parser from section x to x+1 (or reports that it is already past x); any other error
+// leaves the section as it is.
+func spec_header_post(x int, sec int, err error) bool {
+	return (err != nil || (sec == x && verifParserSec == x && verifParserLeft > 0 && verifParserHdr == 1)) &&
+		(err != dnsmessage.ErrSectionDone || (sec == x && verifParserSec == x+1 && verifParserHdr == 0) || (sec > x && verifParserSec == sec)) &&
+		(err == nil || err == dnsmessage.ErrSectionDone || verifParserSec == sec) &&
+		0 <= verifParserHdr && verifParserHdr <= 1
+}
+func verif_extern_dnsmessage_Parser_AnswerHeader(p *dnsmessage.Parser) (dnsmessage.ResourceHeader, error) {
+	sec := verifParserSec
+	vModifiesObj(p)
+	vModifiesMems("dns_naming.verifParserSec", "dns_naming.verifParserHdr")
 	h, err := p.AnswerHeader()
-	vEnsures(err != nil || verifAnswersLeft > 0)
+	vEnsures(spec_header_post(1, sec, err))
+	return h, err
+}
+func verif_extern_dnsmessage_Parser_AuthorityHeader(p *dnsmessage.Parser) (dnsmessage.ResourceHeader, error) {
+	sec := verifParserSec
+	vModifiesObj(p)
+	vModifiesMems("dns_naming.verifParserSec", "dns_naming.verifParserHdr")
+	h, err := p.AuthorityHeader()
+	vEnsures(spec_header_post(2, sec, err))
+	return h, err
+}
+func verif_extern_dnsmessage_Parser_AdditionalHeader(p *dnsmessage.Parser) (dnsmessage.ResourceHeader, error) {
+	sec := verifParserSec
+	vModifiesObj(p)
+	vModifiesMems("dns_naming.verifParserSec", "dns_naming.verifParserHdr")
+	h, err := p.AdditionalHeader()
+	vEnsures(spec_header_post(3, sec, err))
 	return h, err
 }
 
-// UnknownResource / SkipAnswer: total; a nil error means one answer record was consumed.
-func verif_extern_dnsmessage_Parser_UnknownResource(p *dnsmessage.Parser) (dnsmessage.UnknownResource, error) {
-	left := verifAnswersLeft
-	vModifiesObj(p)
-	vModifiesMems("global:github.com/irai/packet/handlers/dns_naming.verifAnswersLeft")
-	r, err := p.UnknownResource()
-	vEnsures((err == nil && verifAnswersLeft == left-1) || (err != nil && verifAnswersLeft == left))
-	return r, err
+// Skip<Section> (x = 1, 2, 3): total; a nil error means one record of section x was consumed;
+// in any other section it fails and changes nothing (skipResource: ErrNotStarted / ErrSectionDone);
+// an error never consumes a record, and right after a header was read it changes nothing at all
+// (without one it may move an exhausted section x on to x+1).
+func spec_skip_post(x int, sec, left, hdr int, err error) bool {
+	return (err != nil || (sec == x && verifParserSec == x && left > 0 && verifParserLeft == left-1 && verifParserHdr == 0)) &&
+		(err == nil || (verifParserLeft == left && (verifParserSec == sec || (sec == x && hdr == 0 && verifParserSec == x+1)))) &&
+		(err == nil || sec == x || verifParserHdr == hdr) &&
+		(sec == x || err != nil) &&
+		0 <= verifParserHdr && verifParserHdr <= 1
 }
 func verif_extern_dnsmessage_Parser_SkipAnswer(p *dnsmessage.Parser) error {
-	left := verifAnswersLeft
+	sec, left, hdr := verifParserSec, verifParserLeft, verifParserHdr
 	vModifiesObj(p)
-	vModifiesMems("global:github.com/irai/packet/handlers/dns_naming.verifAnswersLeft")
+	vModifiesMems("dns_naming.verifParser")
 	err := p.SkipAnswer()
-	vEnsures((err == nil && verifAnswersLeft == left-1) || (err != nil && verifAnswersLeft == left))
+	vEnsures(spec_skip_post(1, sec, left, hdr, err))
 	return err
+}
+func verif_extern_dnsmessage_Parser_SkipAuthority(p *dnsmessage.Parser) error {
+	sec, left, hdr := verifParserSec, verifParserLeft, verifParserHdr
+	vModifiesObj(p)
+	vModifiesMems("dns_naming.verifParser")
+	err := p.SkipAuthority()
+	vEnsures(spec_skip_post(2, sec, left, hdr, err))
+	return err
+}
+func verif_extern_dnsmessage_Parser_SkipAdditional(p *dnsmessage.Parser) error {
+	sec, left, hdr := verifParserSec, verifParserLeft, verifParserHdr
+	vModifiesObj(p)
+	vModifiesMems("dns_naming.verifParser")
+	err := p.SkipAdditional()
+	vEnsures(spec_skip_post(3, sec, left, hdr, err))
+	return err
+}
+
+// <T>Resource: total; a nil error means the record whose header was read last was consumed, an
+// error changes nothing.
+func spec_resource_post(left, hdr int, err error) bool {
+	return (err == nil && hdr == 1 && left > 0 && verifParserLeft == left-1 && verifParserHdr == 0) || (err != nil && verifParserLeft == left && verifParserHdr == hdr)
+}
+func verif_extern_dnsmessage_Parser_UnknownResource(p *dnsmessage.Parser) (dnsmessage.UnknownResource, error) {
+	left, hdr := verifParserLeft, verifParserHdr
+	vModifiesObj(p)
+	vModifiesMems("dns_naming.verifParserLeft", "dns_naming.verifParserHdr")
+	r, err := p.UnknownResource()
+	vEnsures(spec_resource_post(left, hdr, err))
+	return r, err
+}
+func verif_extern_dnsmessage_Parser_AResource(p *dnsmessage.Parser) (dnsmessage.AResource, error) {
+	left, hdr := verifParserLeft, verifParserHdr
+	vModifiesObj(p)
+	vModifiesMems("dns_naming.verifParserLeft", "dns_naming.verifParserHdr")
+	r, err := p.AResource()
+	vEnsures(spec_resource_post(left, hdr, err))
+	return r, err
+}
+func verif_extern_dnsmessage_Parser_AAAAResource(p *dnsmessage.Parser) (dnsmessage.AAAAResource, error) {
+	left, hdr := verifParserLeft, verifParserHdr
+	vModifiesObj(p)
+	vModifiesMems("dns_naming.verifParserLeft", "dns_naming.verifParserHdr")
+	r, err := p.AAAAResource()
+	vEnsures(spec_resource_post(left, hdr, err))
+	return r, err
+}
+func verif_extern_dnsmessage_Parser_PTRResource(p *dnsmessage.Parser) (dnsmessage.PTRResource, error) {
+	left, hdr := verifParserLeft, verifParserHdr
+	vModifiesObj(p)
+	vModifiesMems("dns_naming.verifParserLeft", "dns_naming.verifParserHdr")
+	r, err := p.PTRResource()
+	vEnsures(spec_resource_post(left, hdr, err))
+	return r, err
+}
+func verif_extern_dnsmessage_Parser_SRVResource(p *dnsmessage.Parser) (dnsmessage.SRVResource, error) {
+	left, hdr := verifParserLeft, verifParserHdr
+	vModifiesObj(p)
+	vModifiesMems("dns_naming.verifParserLeft", "dns_naming.verifParserHdr")
+	r, err := p.SRVResource()
+	vEnsures(spec_resource_post(left, hdr, err))
+	return r, err
+}
+func verif_extern_dnsmessage_Parser_TXTResource(p *dnsmessage.Parser) (dnsmessage.TXTResource, error) {
+	left, hdr := verifParserLeft, verifParserHdr
+	vModifiesObj(p)
+	vModifiesMems("dns_naming.verifParserLeft", "dns_naming.verifParserHdr")
+	r, err := p.TXTResource()
+	vEnsures(spec_resource_post(left, hdr, err))
+	return r, err
+}
+func verif_extern_dnsmessage_Parser_OPTResource(p *dnsmessage.Parser) (dnsmessage.OPTResource, error) {
+	left, hdr := verifParserLeft, verifParserHdr
+	vModifiesObj(p)
+	vModifiesMems("dns_naming.verifParserLeft", "dns_naming.verifParserHdr")
+	r, err := p.OPTResource()
+	vEnsures(spec_resource_post(left, hdr, err))
+	return r, err
 }
 
 // ProcessNBNS: returns for every payload (no panic; the answer loop consumes a record per
-// iteration, so it ends after at most as many iterations as the header announces answers).
+// iteration, so it ends after at most as many iterations as the header announces records).
 //
 //verif:props C08
 func verif_contract_dns_naming_DNSHandler_ProcessNBNS(h *DNSHandler, host *packet.Host, ether packet.Ether, payload []byte) (packet.NameEntry, error) {
 	vCanary()
 	vModifiesHeap()
-	vModifiesMems("global:github.com/irai/packet/handlers/dns_naming.verifAnswersLeft")
+	vModifiesMems("dns_naming.verifParser")
 	n, err := h.ProcessNBNS(host, ether, payload)
 	return n, err
 }
 
 func verif_inv_dns_naming_DNSHandler_ProcessNBNS_1() bool {
-	return 0 <= verifAnswersLeft && verifAnswersLeft <= 65535
+	return spec_parser_ok() && verifParserSec == 1
 }
-func verif_dec_dns_naming_DNSHandler_ProcessNBNS_1() int { return verifAnswersLeft }
+func verif_dec_dns_naming_DNSHandler_ProcessNBNS_1() int { return verifParserLeft }
+
+// ---------- DNS cache ----------
+
+// spec_dnstable_ok: the handler is open and every cached entry has its four record maps
+// (what New and ProcessDNS / DNSLookupPTR establish; decodeRRs stores into them).
+func spec_dnstable_ok(h *DNSHandler) bool {
+	return h != nil && h.DNSTable != nil && vMapAll(h.DNSTable, func(k string, e packet.DNSEntry) bool {
+		return e.IP4Records != nil && e.IP6Records != nil && e.CNameRecords != nil && e.PTRRecords != nil
+	})
+}
+
+// ProcessDNS: total on every UDP frame Parse accepts; keeps the cache invariant.
+//
+//verif:props C08
+func verif_contract_dns_naming_DNSHandler_ProcessDNS(h *DNSHandler, frame packet.Frame) (packet.DNSEntry, error) {
+	vRequires(spec_dnstable_ok(h) && packet.VerifSpecFrameUDP(frame))
+	vCanary()
+	vModifiesHeap()
+	e, err := h.ProcessDNS(frame)
+	vEnsures(spec_dnstable_ok(h))
+	return e, err
+}
+
+// ---------- mDNS ----------
+
+// ProcessMDNS: total on every UDP frame Parse accepts, for an open handler; the record loop
+// consumes a record or moves to the next section in every iteration.
+//
+//verif:props C08
+func verif_contract_dns_naming_DNSHandler_ProcessMDNS(h *DNSHandler, frame packet.Frame) ([]packet.IPNameEntry, []packet.IPNameEntry, error) {
+	vRequires(h != nil && h.mdnsCache != nil && packet.VerifSpecFrameUDP(frame))
+	vCanary()
+	vModifiesHeap()
+	vModifiesMems("dns_naming.verifParser")
+	ipv4, ipv6, err := h.ProcessMDNS(frame)
+	return ipv4, ipv6, err
+}
+
+func spec_section_rank(section string) int {
+	switch section {
+	case "answer":
+		return 1
+	case "authority":
+		return 2
+	case "additional":
+		return 3
+	}
+	return 0
+}
+
+// record loop: the section variable mirrors the parser's section
+func verif_inv_dns_naming_DNSHandler_ProcessMDNS_2(h *DNSHandler, section string) bool {
+	return h != nil && h.mdnsCache != nil && spec_parser_ok() && 1 <= verifParserSec && verifParserSec <= 3 && spec_section_rank(section) == verifParserSec
+}
+func verif_dec_dns_naming_DNSHandler_ProcessMDNS_2() int {
+	return 4*verifParserLeft + (4 - verifParserSec)
+}
+
+func verif_inv_dns_naming_DNSHandler_ProcessMDNS_1(questions []dnsmessage.Question, rangeindex int) bool {
+	return -1 <= rangeindex && rangeindex < len(questions)
+}
